@@ -90,7 +90,9 @@ def check(prop, tier, procs=None, only=None):
         traceback.print_exc()
         print(f"ENGINE-ERROR property={prop} cannot build the job list: {e}")
         return 3
-    ids = sorted(j.id for j in jobs.values() if prop in j.props and (tier == "thorough" or not j.meta.get("thorough_only")))
+    also = tuple(cfg.get("depends_on", ()))       # obligations of these properties are part of this property's argument
+    ids = sorted(j.id for j in jobs.values() if (prop in j.props or any(a in j.props for a in also))
+                 and (tier == "thorough" or not j.meta.get("thorough_only")))
     if only:
         ids = [i for i in ids if only in i]
     own = set(ids)
@@ -134,7 +136,7 @@ def check(prop, tier, procs=None, only=None):
             if is_lib:
                 if not lib_clause_counts(r["meta"], cl["clause"], used):
                     continue
-            elif prop not in tags:
+            elif prop not in tags and not any(a in tags for a in also):
                 continue
             oid = f"{r['job']}:{cl['clause']}"
             obligations.append(dict(id=oid, job=r["job"], clause=cl["clause"], status=cl["status"], vcs=cl["vcs"],
